@@ -5,13 +5,14 @@
 // dependsOnlyOnPositions() flags that adds known INTEGER-valued increments to mobility / body force slots, so the
 // totals are exact whatever the summation order.  One record per realization:
 //
-//   I cf <threads> <hasParallel> <mode> <D> <nf> { <par> <pos> <nc> { <slot>:<val>:<reps> }*nc }*nf
-//        threads      value given to setNumberOfThreads          hasParallel  1 iff ANY force of the subsystem (enabled or
-//        mode         0 All, 1 CachedAndNonCached, 2 NonCached                not) is parallel (selects the task class)
-//        D            number of force slots = nu + 6*nbodies      the force list = the ENABLED forces in index order
+//   I cf <threads> <mode> <D> <nf> { <dbd> <en> <par> <pos> <nc> { <slot>:<val>:<reps> }*nc }*nf
+//        threads      value given to setNumberOfThreads          mode  0 All, 1 CachedAndNonCached, 2 NonCached
+//        D            number of force slots = nu + 6*nbodies      the force list = ALL forces of the subsystem in index order
+//        dbd          1 iff the force was setDisabledByDefault(true) before realizeTopology
+//        en           1 iff the force is enabled in the State at this realization (after the enable/disable history)
 //        slot:val:reps  the force adds `val` to slot `slot`, `reps` times (reps > 1 = deliberately slow force)
 //   O cf <D integers>      total mobility forces then body forces (moment xyz, force xyz per body) after realize(Dynamics)
-//   P total_equals_serial <key> <max |total - serial sum|> 0
+//   P total_equals_serial <key> <max |total - independent serial sum over the currently ENABLED forces|> 0
 //        key = CalcForces.mode_<M>.lost_update  when the model says the configuration is exposed to the unlocked
 //              writes of task 0 (mode != All, >= 2 executor threads, some enabled non-parallel force evaluated), finding F7
 //              CalcForces.mode_<M>.total        otherwise
@@ -23,7 +24,7 @@
 using namespace SimTK;
 
 struct Contrib { int slot; long val; long reps; };
-struct Spec { bool par, pos, enabled; std::vector<Contrib> cs; };
+struct Spec { bool par, pos, enabled, dbd; std::vector<Contrib> cs; };   // enabled = current flag in the State
 
 struct TestForce : public Force::Custom::Implementation {
     Spec sp; int nu;
@@ -50,12 +51,13 @@ struct Sys {
         MobilizedBody parent = matter.Ground();
         for (int b = 0; b < nb; ++b) { pins.emplace_back(parent, Transform(Vec3(0, -1, 0)), body, Transform()); parent = pins.back(); }
         nu = nb; D = nu + 6 * (nb + 1);
-        for (const Spec& s : specs) { Force::Custom f(forces, new TestForce(s, nu)); fidx.push_back(f.getForceIndex()); }
+        for (const Spec& s : specs) { Force::Custom f(forces, new TestForce(s, nu)); if (s.dbd) f.setDisabledByDefault(true);
+                                      fidx.push_back(f.getForceIndex()); }
         forces.setNumberOfThreads(threads);
         state = system.realizeTopology();
         system.realizeModel(state);
-        for (size_t k = 0; k < specs.size(); ++k) if (!specs[k].enabled) forces.setForceIsDisabled(state, fidx[k], true);
     }
+    void setEnabled(int k, bool en) { forces.setForceIsDisabled(state, fidx[k], !en); }
     std::vector<double> totals() {
         system.realize(state, Stage::Dynamics);
         const Vector& mob = system.getMobilityForces(state, Stage::Dynamics);
@@ -79,10 +81,9 @@ static void emitRecord(int threads, const std::vector<Spec>& specs, int mode, in
         for (const Contrib& c : s.cs) serial[c.slot] += (double)c.val * (double)c.reps;
         if (!s.par && !(mode == 2 && s.pos)) exposedForce = true;
     }
-    vh::Line in = vh::I("cf"); in.i(threads).i(hasPar ? 1 : 0).i(mode).i(D).i(nEnabled);
+    vh::Line in = vh::I("cf"); in.i(threads).i(mode).i(D).i((long long)specs.size());
     for (const Spec& s : specs) {
-        if (!s.enabled) continue;
-        in.i(s.par ? 1 : 0).i(s.pos ? 1 : 0).i((long long)s.cs.size());
+        in.i(s.dbd ? 1 : 0).i(s.enabled ? 1 : 0).i(s.par ? 1 : 0).i(s.pos ? 1 : 0).i((long long)s.cs.size());
         for (const Contrib& c : s.cs) in.s(std::to_string(c.slot) + ":" + std::to_string(c.val) + ":" + std::to_string(c.reps));
     }
     in.emit();
@@ -97,30 +98,45 @@ static void emitRecord(int threads, const std::vector<Spec>& specs, int mode, in
     out.emit();
     int effThreads = hasPar ? threads : 1;
     bool exposed = effThreads >= 2 && mode != 0 && exposedForce;
+    bool lateEnabledPar = false, stateDisabled = false;
+    for (const Spec& s : specs) { if (s.dbd && s.enabled && s.par) lateEnabledPar = true; if (!s.dbd && !s.enabled) stateDisabled = true; }
     vh::D(std::string("cf.") + tag + ".mode_" + MODE_NAME[mode] + (exposed ? ".exposed" : ".safe") + ".threads" + std::to_string(threads));
+    if (lateEnabledPar) vh::D("cf.history.parallel_force_disabled_by_default_then_enabled");
+    if (stateDisabled) vh::D("cf.history.force_disabled_in_state");
     vh::P("total_equals_serial", std::string("CalcForces.mode_") + MODE_NAME[mode] + (exposed ? ".lost_update" : ".total"), worst, 0);
 }
 
-// run `nreal` realizations on one system; kinds[k] = 'v' (only velocities changed) or 'p' (positions changed)
-static void runCase(int nb, const std::vector<Spec>& specs, int threads, const std::string& kinds, const char* tag) {
+// run realizations on one system.  `ops` is a list of tokens applied before each realization:
+//   "p" positions changed, "v" only velocities changed, "e<k>" / "d<k>" enable / disable force k in the State
+// (a token group ends with "p" or "v", which triggers the realization).  specs[k].enabled must start as !dbd.
+static void runCase(int nb, std::vector<Spec> specs, int threads, const std::vector<std::string>& ops, const char* tag) {
     Sys S(nb, specs, threads);
     bool caching = false; for (const Spec& s : specs) caching = caching || s.pos;
-    bool cacheValid = false;
-    for (size_t k = 0; k < kinds.size(); ++k) {
-        if (kinds[k] == 'p') { S.pins[0].setOneQ(S.state, 0, 0.01 * (double)(k + 1)); cacheValid = false; }
-        else S.pins[0].setOneU(S.state, 0, 0.1 * (double)(k + 1));
+    bool cacheValid = false; int k = 0;
+    for (const std::string& op : ops) {
+        if (op[0] == 'e' || op[0] == 'd') {
+            int f = std::atoi(op.c_str() + 1); bool en = op[0] == 'e';
+            if (specs[f].enabled != en) { S.setEnabled(f, en); specs[f].enabled = en; cacheValid = false; }
+            continue;
+        }
+        ++k;
+        if (op[0] == 'p') { S.pins[0].setOneQ(S.state, 0, 0.01 * (double)k); cacheValid = false; }
+        else S.pins[0].setOneU(S.state, 0, 0.1 * (double)k);
         int mode = !caching ? 0 : (cacheValid ? 2 : 1);
         std::vector<double> t = S.totals();
         cacheValid = caching;
         emitRecord(threads, specs, mode, S.D, t, tag);
     }
 }
+static std::vector<std::string> opsOf(const std::string& kinds) {
+    std::vector<std::string> v; for (char c : kinds) v.push_back(std::string(1, c)); return v;
+}
 
 static std::vector<Spec> f7Specs() {
     std::vector<Spec> v;
-    v.push_back(Spec{false, false, true, {Contrib{0, 1, 2000000}}});              // slow, non-parallel, velocity dependent
-    for (int i = 0; i < 6; ++i) v.push_back(Spec{true, false, true, {Contrib{0, 1000, 1}}});   // parallel forces
-    v.push_back(Spec{false, true, true, {Contrib{0, 5, 1}}});                       // position-only: switches caching on
+    v.push_back(Spec{false, false, true, false, {Contrib{0, 1, 2000000}}});              // slow, non-parallel, velocity dependent
+    for (int i = 0; i < 6; ++i) v.push_back(Spec{true, false, true, false, {Contrib{0, 1000, 1}}});   // parallel forces
+    v.push_back(Spec{false, true, true, false, {Contrib{0, 5, 1}}});                       // position-only: switches caching on
     return v;
 }
 
@@ -129,19 +145,20 @@ static void replay() {
     while (std::fgets(buf, 1 << 20, stdin)) {
         std::istringstream is(buf); std::string k, fn; is >> k >> fn;
         if (k != "I" || fn != "cf") continue;
-        int threads, hasPar, mode, D, nf; is >> threads >> hasPar >> mode >> D >> nf;
-        std::vector<Spec> specs; bool anyPar = false, anyPos = false;
+        int threads, mode, D, nf; is >> threads >> mode >> D >> nf;
+        std::vector<Spec> specs; std::vector<std::string> ops; bool anyPos = false;
         for (int f = 0; f < nf; ++f) {
-            int par, pos, nc; is >> par >> pos >> nc; Spec s{par != 0, pos != 0, true, {}};
+            int dbd, en, par, pos, nc; is >> dbd >> en >> par >> pos >> nc; Spec s{par != 0, pos != 0, dbd == 0, dbd != 0, {}};
             for (int c = 0; c < nc; ++c) { std::string t; is >> t; Contrib cc; long a, b, r;
                 if (std::sscanf(t.c_str(), "%ld:%ld:%ld", &a, &b, &r) == 3) { cc.slot = (int)a; cc.val = b; cc.reps = r; s.cs.push_back(cc); } }
-            anyPar = anyPar || s.par; anyPos = anyPos || s.pos; specs.push_back(s);
+            anyPos = anyPos || s.pos; specs.push_back(s);
+            if ((en != 0) != s.enabled) ops.push_back(std::string(en ? "e" : "d") + std::to_string(f));   // reach the recorded mask in the State
         }
-        // a disabled dummy force reproduces the subsystem-wide flags when no enabled force carries them
-        if (hasPar && !anyPar) specs.push_back(Spec{true, false, false, {}});
-        if (mode != 0 && !anyPos) specs.push_back(Spec{false, true, false, {}});
+        // mode != All with no position-only force listed cannot happen (all forces are listed); the recorded mode is
+        // reproduced by the invalidation kind: for NonCached the record of interest is the 2nd realization
+        ops.push_back("p"); if (mode == 2) ops.push_back("v");
         int nb = (D - 6) / 7;
-        runCase(nb, specs, threads, mode == 2 ? "pv" : "p", "replay");     // for NonCached the record of interest is the 2nd
+        runCase(nb, specs, threads, ops, "replay");
     }
 }
 
@@ -151,28 +168,51 @@ int main(int argc, char** argv) {
     vh::Rng g(args.seed * 7919 + 17);
     if (args.mode == "f7") {
         // the dedicated lost-update stream: 30 realizations in NonCached mode, 30 in CachedAndNonCached mode
-        runCase(1, f7Specs(), 8, "p" + std::string(30, 'v'), "f7");
-        runCase(1, f7Specs(), 8, std::string(30, 'p'), "f7");
+        runCase(1, f7Specs(), 8, opsOf("p" + std::string(30, 'v')), "f7");
+        runCase(1, f7Specs(), 8, opsOf(std::string(30, 'p')), "f7");
         return 0;
     }
-    static const int TH[] = {1, 2, 3, 4, 5, 6, 7, 8, 12, 16};
+    static const int TH[] = {1, 2, 3, 8, 16, 4, 5, 6, 7, 12};
     long records = 0;
     while (records < args.n) {
         int nb = 1 + g.below(4), nu = nb, D = nu + 6 * (nb + 1);
         int nf = 1 + g.below(10);
         int flavour = g.below(4);          // 0: no position-only force (mode All); 1: no parallel force; else anything
+        // enable/disable HISTORY flavour: 0 nothing disabled by default; 1 ALL parallel forces disabled by default (the
+        // subsystem must still pick the parallel task); 2 a random subset disabled by default
+        int hist = g.below(3);
         std::vector<Spec> specs;
         for (int f = 0; f < nf; ++f) {
             Spec s; s.par = flavour == 1 ? false : g.below(2) == 0; s.pos = flavour == 0 ? false : g.below(3) == 0;
-            s.enabled = g.below(8) != 0;
+            s.dbd = hist == 0 ? false : hist == 1 ? s.par : g.below(3) == 0;
+            s.enabled = !s.dbd;
             int nc = 1 + g.below(4);
             for (int c = 0; c < nc; ++c) s.cs.push_back(Contrib{g.below(D), (long)g.below(2001) - 1000, 1});
             specs.push_back(s);
         }
-        int threads = TH[g.below(g.below(6) == 0 ? 10 : 8)];
-        std::string kinds; int nreal = 3 + g.below(4);
-        for (int k = 0; k < nreal; ++k) kinds += (k == 0 || g.below(3) == 0) ? 'p' : 'v';
-        runCase(nb, specs, threads, kinds, "mix");
+        if (hist == 1 && flavour != 1) { bool any = false; for (auto& s : specs) any = any || s.par;
+                                         if (!any) { specs[0].par = true; specs[0].dbd = true; specs[0].enabled = false; } }
+        int threads = TH[g.below(g.below(4) == 0 ? 10 : 5)];
+        // realizations separated by random enable/disable toggles in the State and position / velocity-only changes
+        std::vector<std::string> ops; int nreal = 3 + g.below(4);
+        std::vector<int> order; for (int f = 0; f < nf; ++f) order.push_back(f);
+        for (int f = nf - 1; f > 0; --f) std::swap(order[f], order[g.below(f + 1)]);       // random enabling order
+        size_t nextEnable = 0; std::vector<bool> cur; for (auto& s : specs) cur.push_back(s.enabled);
+        for (int k = 0; k < nreal; ++k) {
+            if (k > 0) {
+                int ntog = g.below(3);
+                for (int t = 0; t < ntog; ++t) {
+                    int f;
+                    // prefer enabling forces that were disabled by default (in random order), else toggle a random one
+                    while (nextEnable < order.size() && cur[order[nextEnable]]) ++nextEnable;
+                    if (nextEnable < order.size() && g.below(3) != 0) f = order[nextEnable]; else f = g.below(nf);
+                    cur[f] = !cur[f];
+                    ops.push_back(std::string(cur[f] ? "e" : "d") + std::to_string(f));
+                }
+            }
+            ops.push_back((k == 0 || g.below(3) == 0) ? "p" : "v");
+        }
+        runCase(nb, specs, threads, ops, "mix");
         records += nreal;
     }
     return 0;
